@@ -159,6 +159,8 @@ def replay_schedules(chk: Check, w: Tuple[str, ...], limit: Optional[int], rnd: 
         ch = section_chooser(sc, len(w))
         s = sched.Scheduler(ch)
         sched.set_scheduler(s, registries=False)
+        sched.YIELD_LOCKS.clear()
+        sched.YIELD_LOCKS.add("provide_lock")      # the model's steps are the sections of the provide lock
         try:
             res = s.run(tasks)
         except sched.Deadlock as e:
@@ -166,8 +168,9 @@ def replay_schedules(chk: Check, w: Tuple[str, ...], limit: Optional[int], rnd: 
             sched.set_scheduler(None)
             continue
         sched.set_scheduler(None)
+        sched.YIELD_LOCKS.clear()
         chk.count(["tlc-schedule", w, sc])
-        steps = [sum(1 for t, lab in s.trace if t == i and lab.endswith(".acquire")) for i in range(len(w))]
+        steps = [sum(1 for t, lab in s.trace if t == i and lab == "provide_lock.acquire") for i in range(len(w))]
         if steps != [MODEL_STEPS[x] for x in w] or ch.state["diverged"]:
             chk.add("model_drift", 1)
         left = sched.registries_empty()
@@ -187,15 +190,18 @@ def explore(chk: Check, label: str, mk_tasks: Callable[[], List[Callable[[], Any
     for ch_name, ch in choosers:
         if reset:
             reset()
-        tasks = mk_tasks()
+        # the solo results come from a separate, equally fresh set of tasks (first-access workloads must
+        # still be "first" when the scheduled run starts)
+        solo_tasks = mk_tasks()
         if reset:
             solos = []
-            for t in tasks:
+            for t in solo_tasks:
                 reset()
                 solos.append(solo(t))
             reset()
         else:
-            solos = [solo(t) for t in tasks]
+            solos = [solo(t) for t in solo_tasks]
+        tasks = mk_tasks()
         sched.clear_registries()
         s = sched.Scheduler(ch)
         sched.WATCH_ON[0] = lines
@@ -294,6 +300,41 @@ def body(chk: Check, *, pairs, triples, limit, n_pre2: int, n_random: int) -> No
         return [media_workload(cls), media_workload(cls), media_workload(base)]
     chs = [(f"rnd{k2}", sched.random_chooser(random.Random(rnd.random()), 0.3)) for k2 in range(n_random)]
     explore(chk, "media first access", mk_media, chs, lines=True)
+    # first use of a component whose template / js / css live in FILES (resolved lazily on first access)
+    import os
+    d = workdir("c07files")
+    (d / "comps" / "card").mkdir(parents=True)
+    (d / "comps" / "card" / "card.html").write_text("<p>[card {{ n }}]</p>")
+    (d / "comps" / "card" / "card.js").write_text("/*card js*/")
+    (d / "comps" / "card" / "card.css").write_text("/*card css*/")
+    settings.COMPONENTS = dict(old, dirs=[str(d / "comps")])
+    from django.template import engines
+    eng = engines["django"].engine
+    saved_dirs = list(eng.dirs)
+    eng.dirs = saved_dirs + [str(d / "comps")]
+    for ld in eng.template_loaders:
+        if hasattr(ld, "reset"):
+            ld.reset()
+
+    def mk_files():
+        k[0] += 1
+        cls = type(f"Vf7F{k[0]}", (Component,), {"template_file": "card/card.html", "js_file": "card/card.js",
+                                                 "css_file": "card/card.css",
+                                                 "get_context_data": lambda self, n=0: {"n": n}})
+
+        def task(n):
+            def run():
+                html = cls.render(kwargs={"n": n}, render_dependencies=False)
+                return [re.sub(r"<!--.*?-->|\sdata-djc-id-\w+(=\"\")?", "", html), cls.js, cls.css]
+            return run
+        return [task(1), task(2)]
+    try:
+        chs = [(f"rnd{k2}", sched.random_chooser(random.Random(rnd.random()), 0.3)) for k2 in range(5 * n_random)] + \
+            [(f"pre{a}", sched.preemption_chooser([a])) for a in range(1, 700, 3)]
+        explore(chk, "file-based assets first use", mk_files, chs, lines=True)
+    finally:
+        settings.COMPONENTS = old
+        eng.dirs = saved_dirs
 
 
 def run(tier: str) -> int:
